@@ -10,7 +10,8 @@ RULE = ("for every decoded node D of every result that carried no decoder-suppli
         "= the depth_limit its own activation received: children(D) must equal, structurally, the children of "
         "Multidecoder(same registry, untapped).scan_node(Node(D.type, D.value), r). Workloads: default registry on layered "
         "stacks with indicator payloads, decoded-inside-context, nested, URL inputs with k in 0..10; random synthetic "
-        "registries. distinct_nontrivial = distinct cases with a non-empty result.")
+        "registries. 'synth-wide' shard: synthetic registries with 300..25000 one-byte decodable fragments in one text, each three decodings deep, k = 1..5 (up to 75001 searches per scan: per-scan / per-scanner budgets); random registries list the same decoder object twice 12 % of the time. "
+        "distinct_nontrivial = distinct cases with a non-empty result.")
 ASSUMPTIONS = ["the comparison scan uses the same decoder functions (unwrapped) in the same order"]
 EXPECTED_WALL = {"quick": 60, "thorough": 500}
 REQUIRED = {"c08_decoded_nodes_compared": 625, "c08_compared_with_children": 125, "c08_inside_context": 12, "real_scans": 62}
